@@ -24,6 +24,7 @@ Canonical(rel, pt) ==
     [] rel = "PositronFlip"    -> pt.proj = 11
     [] rel \in {"ChargeConjugation", "LeptonAsNeutrino"} -> pt.proj = 12
     [] rel = "EqualCharge"     -> pt.pos = 0
+    [] rel = "TaggedSpectators" -> pt.pos = 0
 Instances ==
   {[rel |-> rel, pt |-> pt, terms |-> RelTerms(rel, pt)] :
      rel \in RELS, pt \in {q \in Points : WellFormed(q)} }
